@@ -337,28 +337,43 @@ def parseNum (s : String) : Option (List (Str × Nat)) :=
     | _ => none
 
 /-- one statement under one environment: (as the code does, as the reference says) -/
-def evalStmt (tb : Tables) (G : Cfg Float) (e : Expr) : String × String :=
+structure StmtOut where
+  impl : String          -- as the code does (Impl.eval)
+  spec : String          -- as the reference says (Spec.eval)
+  alts : List String     -- the admissible errors (Spec.errSet), when the outcome is an error
+  modOut : Bool          -- some `%` has an operand outside the int64 range
+
+def showErr (x : ErrKind × Str × Option Nat) : String :=
+  match x with
+  | (k, s, p) => showOut (.err k s p : Out Float)
+
+def evalStmt (tb : Tables) (G : Cfg Float) (e : Expr) : StmtOut :=
   match missing tb G e with
-  | some m => (m, m)
-  | none => (showOut (Impl.eval G e), showOut (Spec.eval G e))
+  | some m => ⟨m, m, [], false⟩
+  | none =>
+    let a := showOut (Impl.eval G e)
+    ⟨a, showOut (Spec.eval G e), ((Spec.errSet G e).map showErr).eraseDups.filter (· != a), !Spec.modInRange G e⟩
 
 def isErrOut (s : String) : Bool := s.startsWith "E " || s.startsWith "MISSING"
 
 /-- a program under one environment: statements in order, the first error ends it, otherwise the
     value of the last one; `r := e` alone: the value bound -/
-def evalProgram (tb : Tables) (G : Cfg Float) (es : List Expr) : String × String :=
+def evalProgram (tb : Tables) (G : Cfg Float) (es : List Expr) : StmtOut :=
   match es with
   | [.bin .assign _ (.atom (.ident name)) r] =>
-    let (a, b) := evalStmt tb G r
+    let o := evalStmt tb G r
     let wrap (x : String) := if x.startsWith "V " then "A " ++ hexEnc name ++ " " ++ (x.drop 2).toString else x
-    (wrap a, wrap b)
+    { o with impl := wrap o.impl, spec := wrap o.spec }
   | _ =>
     let outs := es.map (evalStmt tb G)
-    let pick (sel : String × String → String) : String :=
+    let pick (sel : StmtOut → String) : String :=
       match (outs.map sel).find? isErrOut with
       | some e => e
       | none => ((outs.map sel).getLast?).getD "V n"
-    (pick (·.1), pick (·.2))
+    let alts := match outs.find? (fun o => isErrOut o.impl) with
+      | some o => o.alts
+      | none => []
+    ⟨pick (·.impl), pick (·.spec), alts, outs.any (·.modOut)⟩
 
 def showProgram : List Expr → String
   | [e] => showTree e
@@ -402,17 +417,24 @@ def runCase (payload : String) : String :=
                   | some e => envCfg tb e
                   | none => cfg tb
                 evalProgram tb G es
-              let a := "|".intercalate (outs.map (·.1))
-              let b := "|".intercalate (outs.map (·.2))
+              let a := "|".intercalate (outs.map (·.impl))
+              let b := "|".intercalate (outs.map (·.spec))
               let nt := match es with | [.atom _] => "" | _ => "\tnt=1"
-              if a = b then tree ++ " " ++ a ++ nt
+              -- admissible alternatives per evaluation: `alt=<index>:<outcome>~<outcome>;…`
+              let altParts := (outs.zipIdx.filter fun (o, _) => !o.alts.isEmpty).map fun (o, i) =>
+                toString i ++ ":" ++ "~".intercalate o.alts
+              let alt := if altParts.isEmpty then "" else "\talt=" ++ ";".intercalate altParts
+              if a = b then tree ++ " " ++ a ++ nt ++ alt
               else
                 -- the code deviates from the reference: which known finding?
                 let coreOf (x : String) : String :=
                   "|".intercalate ((x.splitOn "|").map fun o =>
                     if o.startsWith "E " then " ".intercalate ((o.splitOn " ").take 3) else o)
-                let kf := if coreOf a = coreOf b then "error-node-left-operand" else "mod-out-of-int64-range"
-                tree ++ " " ++ a ++ nt ++ "\tkf=" ++ kf ++ "\tspec=" ++ tree ++ " " ++ b
+                let kf :=
+                  if coreOf a = coreOf b then "error-node-left-operand"
+                  else if outs.any (·.modOut) then "mod-out-of-int64-range"
+                  else "MODEL-DRIFT"   -- excluded by eval_eq_quirk_spec; never a known finding
+                tree ++ " " ++ a ++ nt ++ alt ++ "\tkf=" ++ kf ++ "\tspec=" ++ tree ++ " " ++ b
     | _, _, _, _, _, _, _ => "bad-payload"
   | _, _, _, _, _ => "bad-payload"
 
